@@ -1,4 +1,5 @@
 import Cose.Props.C18Lemmas
+import Cose.Gen.Footprints
 /-!
 # C18 — CWT validation decides exactly per RFC 8392 for every timestamp and option
 
@@ -150,6 +151,17 @@ theorem skew_cap (o : VOpts) : newValidatorOk o = skewAllowed o.skew := by
   omega
 
 example : newValidatorOk ⟨"", "", false, false, 600000000001, GoTime.unix 1700000000⟩ = false := by decide +kernel
+
+/-- **the configuration is fixed at construction** (regenerated facts): the validator holds its options *by value*
+    (six plain fields, no pointer, slice or map through which the caller's object could be reached), and `Validate` /
+    `ValidateMap` only read them — so every decision is the model's function of the options that passed the skew cap. -/
+theorem validator_holds_a_copy :
+    Cose.Gen.Footprints.structFields.filter (fun s => s.1 == "cwt.Validator" || s.1 == "cwt.ValidatorOpts") =
+      [("cwt.Validator", [("opts", "ValidatorOpts")]),
+       ("cwt.ValidatorOpts", [("ExpectedIssuer", "string"), ("ExpectedAudience", "string"), ("AllowMissingExpiration", "bool"),
+          ("ExpectIssuedInThePast", "bool"), ("ClockSkew", "time.Duration"), ("FixedNow", "time.Time")])]
+    ∧ (Cose.Gen.Footprints.footprints.filter (fun m => m.2.1 == "cwt.Validator")).all (fun m =>
+        m.2.2.all (fun u => u.2 != "assigned" && u.2 != "addr")) = true := by decide +kernel
 
 /-! ### non-vacuity: the hypotheses are met by an ordinary configuration, on both verdicts -/
 def sampleOpts : VOpts :=
